@@ -705,6 +705,158 @@ func errorEdgeBlocks(call *ssa.Call) map[*ssa.BasicBlock]bool {
 	return out
 }
 
+// boolStepReader: h is a library helper that makes the per-iteration read for the connection loop and reports
+// the outcome as a bool instead of an error: results (…, bool) without an error among them, exactly one call that
+// reaches the message reader, the bool result is the constant false at every return on that call's error edge
+// and the constant true at every other return, and no return of true can be reached from the error edge.
+// Returns the inner read and its error-edge blocks.
+func (c *Ctx) boolStepReader(h *ssa.Function) (*ssa.Call, map[*ssa.BasicBlock]bool) {
+	rm := c.P.Func("diam", "ReadMessage")
+	if h == nil || h.Blocks == nil || rm == nil || !c.P.IsLibrary(h) {
+		return nil, nil
+	}
+	res := h.Signature.Results()
+	if res.Len() < 2 {
+		return nil, nil
+	}
+	for i := 0; i < res.Len(); i++ {
+		if isErrorType(res.At(i).Type()) {
+			return nil, nil
+		}
+	}
+	bi := res.Len() - 1
+	if b, ok := res.At(bi).Type().Underlying().(*types.Basic); !ok || b.Kind() != types.Bool {
+		return nil, nil
+	}
+	var inner *ssa.Call
+	n := 0
+	for _, ci := range flow.CallInstrs(h) {
+		if call, ok := ci.(*ssa.Call); ok {
+			if g := flow.StaticCallee(call); g != nil && (g == rm || c.reachesFunc(g, rm, map[*ssa.Function]bool{})) {
+				inner = call
+				n++
+			}
+		}
+	}
+	if n != 1 || len(flow.Loops(h)) > 0 {
+		return nil, nil
+	}
+	eb := errorEdgeBlocks(inner)
+	if len(eb) == 0 {
+		return nil, nil
+	}
+	good := true
+	var trues []ssa.Instruction
+	flow.Instrs(h, func(in ssa.Instruction) {
+		ret, ok := in.(*ssa.Return)
+		if !ok {
+			return
+		}
+		if len(ret.Results) != res.Len() {
+			good = false
+			return
+		}
+		k, isK := ret.Results[bi].(*ssa.Const)
+		if !isK || k.Value == nil {
+			good = false
+			return
+		}
+		isTrue := k.Value.String() == "true"
+		if eb[ret.Block()] == isTrue {
+			good = false
+		}
+		if isTrue {
+			trues = append(trues, ret)
+		}
+	})
+	if !good || len(trues) == 0 {
+		return nil, nil
+	}
+	for b := range eb {
+		if p := flow.PathAvoiding(h, b.Instrs[0], func(in ssa.Instruction) bool {
+			for _, t := range trues {
+				if in == t {
+					return true
+				}
+			}
+			return false
+		}, nil); p != nil {
+			return nil, nil
+		}
+	}
+	return inner, eb
+}
+
+// falseEdgeBlocks: the blocks of call's function entered only after the bool (last) result of call — or the
+// merge of that result with the same result of other calls of the same function — tested false.
+func falseEdgeBlocks(call *ssa.Call) map[*ssa.BasicBlock]bool {
+	out := map[*ssa.BasicBlock]bool{}
+	callee := flow.StaticCallee(call)
+	if callee == nil {
+		return out
+	}
+	okOf := func(cl *ssa.Call) ssa.Value {
+		for _, ref := range flow.Referrers(cl) {
+			if ex, ok := ref.(*ssa.Extract); ok && ex.Index == callee.Signature.Results().Len()-1 {
+				return ex
+			}
+		}
+		return nil
+	}
+	okv := okOf(call)
+	if okv == nil {
+		return out
+	}
+	isOK := func(v ssa.Value) bool {
+		if v == okv {
+			return true
+		}
+		ph, isPhi := v.(*ssa.Phi)
+		if !isPhi {
+			return false
+		}
+		has := false
+		for _, e := range ph.Edges {
+			ex, isEx := e.(*ssa.Extract)
+			if !isEx {
+				return false
+			}
+			cl, isCall := ex.Tuple.(*ssa.Call)
+			if !isCall || flow.StaticCallee(cl) != callee || okOf(cl) != e {
+				return false
+			}
+			if e == okv {
+				has = true
+			}
+		}
+		return has
+	}
+	f := call.Parent()
+	for _, b := range f.Blocks {
+		if len(b.Instrs) == 0 {
+			continue
+		}
+		ifi, ok := b.Instrs[len(b.Instrs)-1].(*ssa.If)
+		if !ok {
+			continue
+		}
+		cond, neg := flow.Cond(ifi.Cond, true)
+		if !isOK(cond) {
+			continue
+		}
+		idx := 1
+		if neg {
+			idx = 0
+		}
+		for _, x := range f.Blocks {
+			if flow.EdgeDominates(b, idx, x) {
+				out[x] = true
+			}
+		}
+	}
+	return out
+}
+
 func isErrorType(t types.Type) bool {
 	n, ok := t.(*types.Named)
 	return ok && n.Obj().Pkg() == nil && n.Obj().Name() == "error"
